@@ -2,6 +2,8 @@
 
 SETUP = ("/venv/bin/python -c 'import hypothesis, yaml' 2>/dev/null || "
          "/venv/bin/pip install --no-index --find-links /opt/veriftools/wheels hypothesis; "
+         "test -d /verif/.deps/numpy || /venv/bin/pip install -q --no-index --find-links /opt/veriftools/wheels "
+         "--target /verif/.deps numpy; "
          "/venv/bin/python -c 'import hypothesis, yaml'")
 
 HOOKS = {
@@ -247,5 +249,22 @@ CHECKS = {
         note="No Lua runtime exists in the sandbox: semantics are those of the emulator (Lua 5.3 signatures). char *, "
              "class-pointer arguments/results of free functions and static methods are outside the supported subset. Two "
              "recorded known findings are excluded by construction and probed.",
+    ),
+    "C05": dict(
+        level="exploration",
+        technique="property-based compile/link matrix: Hypothesis library models x drawn configurations judged by "
+                  "gcc/g++/gfortran/CPython headers/Lua emulator headers; metamorphic option variants of the upstream "
+                  "corpus through its own Makefiles",
+        design_ref="DESIGN.md section 4, C05",
+        text="Generated libraries (executed-model families for C/Fortran, Python and Lua with a real subject library, "
+             "and the wider admitted-grammar family of vf/smallgen.py with vectors, enums, structs, namespaces, templates, "
+             "generics) are wrapped under drawn combinations of F_CFI, debug, doxygen, show_splicer_comments, "
+             "literalinclude2 and line lengths 40..132: Shroud must succeed, headers compile alone as C and C++, all "
+             "sources compile, Fortran modules compile in --ffiles order, everything links with -Wl,--no-undefined, the "
+             "Python extension imports with LD_BIND_NOW. Corpus entries that build in their default configuration must "
+             "build with drawn option variants, and the Python/Lua modules upstream compiles must compile.",
+        note="Lua is compiled against the emulator headers, not a real Lua. numpy-using sources are compiled against the "
+             "numpy headers installed into .deps by setup_cmd (skipped if absent). std::vector with F_CFI is a recorded "
+             "known finding (excluded, probed).",
     ),
 }
